@@ -23,6 +23,12 @@ CHECKS = {
  'C06': ('dynamic', 'explicit-state breadth-first search over operation histories on the real DynamicPGMIndex, std::map reference model',
          'Same state space as C05; in every distinct state: iteration from begin() and from lower_bound(q) for every q to end() (strictly increasing live keys with current values, terminates), range(lo,hi) for every lo<=hi of the query alphabet equals the map slice exactly, size(), empty().',
          'As C05.', '4/C06'),
+ 'C11': ('mapped', 'bounded-exhaustive input x query enumeration on the real MappedPGMIndex with real files, std algorithm oracles',
+         'Every sorted array up to N over the palettes (signed/unsigned, 16..64 bit) and every member of the run family (runs shorter than, equal to and longer than the search range, powers of two +-1 for the gallop, last run ending at n) is stored through the range constructor; lower_bound, upper_bound, count, contains for every query of the alphabet equal std::lower_bound/upper_bound/count/binary_search, begin()/end()/size() expose the array.',
+         'Files in a per-worker scratch directory; harness closes the descriptors leaked by map_file.', '4/C11'),
+ 'C12': ('mapped', 'exhaustive enumeration of create/raw-create/reopen/destroy histories per input on the real MappedPGMIndex, byte-level file comparison',
+         'For every sorted array up to N (first key negative, zero, positive) every history of the stated length over {create from range, create from raw file, reopen f1, reopen f2, destroy object i}: after every step all live objects pass the C11 battery, the two files are byte-identical, reopened objects hold the same index members as the creator, files never change.',
+         'As C11.', '4/C12'),
  'C13': ('multidim', 'bounded-exhaustive enumeration of point multisets x boxes on the real MultidimensionalPGMIndex at the real miss threshold, brute-force oracle',
          'Every multiplicity vector in {0,1,65}^cells over small cell universes (65 copies force the bigmin skip path), full grids 16x16/32x32/8^3/4^4 with every axis-aligned box, grids with an enumerated window; Dimensions 2..4, uint32/uint64, Epsilon 1..16(64): the sequence produced by range(min,max) up to end() must equal the brute-force filter in Morton order with multiplicity and terminate.',
          'Own Morton code (self-checked against the library at start-up); coordinates fit the encoder.', '4/C13'),
@@ -89,6 +95,8 @@ def main():
              'kind_free_text': 'explicit-state BFS over update histories on the real DynamicPGMIndex with canonical-state hashing and std::map reference'},
             {'name': 'multidim', 'path': 'engines/multidim.cpp', 'serves_properties': ['C13', 'C14'],
              'kind_free_text': 'bounded-exhaustive enumeration of point multisets and boxes on the real MultidimensionalPGMIndex'},
+            {'name': 'mapped', 'path': 'engines/mapped.cpp', 'serves_properties': ['C11', 'C12'],
+             'kind_free_text': 'bounded-exhaustive enumeration of inputs and file-lifecycle histories on the real MappedPGMIndex'},
             {'name': 'segmentation', 'path': 'engines/segmentation.cpp', 'serves_properties': ['C03', 'C04'],
              'kind_free_text': 'bounded-exhaustive enumeration of inputs to the piecewise-linear builder with hook H1 and exact rational oracles'},
         ],
